@@ -705,6 +705,7 @@ class VM:
         elif op == OpCode.RETURN:
             result = self.stack.pop() if self.stack else UNDEFINED
             popped_frame = self.call_stack.pop()
+            self._discard_frame_state(popped_frame)
             # For constructor calls, return the new object unless result is an object
             if popped_frame.is_constructor_call:
                 if not isinstance(result, JSObject):
@@ -713,6 +714,7 @@ class VM:
 
         elif op == OpCode.RETURN_UNDEFINED:
             popped_frame = self.call_stack.pop()
+            self._discard_frame_state(popped_frame)
             # For constructor calls, return the new object
             if popped_frame.is_constructor_call:
                 self.stack.append(popped_frame.new_target)
@@ -858,6 +860,15 @@ class VM:
 
         else:
             raise NotImplementedError(f"Opcode not implemented: {op.name}")
+
+    def _discard_frame_state(self, frame: CallFrame) -> None:
+        """Drop what a returning frame left behind: operands of statements it
+        returned out of (for-in iterators, switch discriminants) and the
+        handlers of try blocks it returned out of."""
+        del self.stack[frame.bp :]
+        depth = len(self.call_stack)
+        while self.exception_handlers and self.exception_handlers[-1][0] >= depth:
+            self.exception_handlers.pop()
 
     def _get_name(self, frame: CallFrame, index: int) -> str:
         """Get a name from the name table."""
